@@ -2812,13 +2812,19 @@ func (c *Ctx) r1021() {
 						}
 						for _, pr := range [][2]ast.Expr{{be.X, be.Y}, {be.Y, be.X}} {
 							id, ok1 := ast.Unparen(pr[0]).(*ast.Ident)
-							ce, ok2 := ast.Unparen(pr[1]).(*ast.CallExpr)
-							if ok1 && ok2 && len(ce.Args) == 1 {
-								if fid, ok := ce.Fun.(*ast.Ident); ok && fid.Name == "len" {
-									cursor = info.Uses[id]
-									over = nospace(str(ce.Args[0]))
-								}
+							if !ok1 {
+								continue
 							}
+							// len(S), or len(S) minus something
+							ast.Inspect(pr[1], func(q ast.Node) bool {
+								if ce, ok := q.(*ast.CallExpr); ok && len(ce.Args) == 1 {
+									if fid, ok := ce.Fun.(*ast.Ident); ok && fid.Name == "len" && cursor == nil {
+										cursor = info.Uses[id]
+										over = nospace(str(ce.Args[0]))
+									}
+								}
+								return true
+							})
 						}
 						return true
 					})
@@ -2832,12 +2838,29 @@ func (c *Ctx) r1021() {
 						return true
 					}
 					nm := calleeName(info, ce)
-					if nm != "bytes.IndexByte" && nm != "bytes.Index" && nm != "bytes.IndexAny" && nm != "bytes.IndexFunc" && nm != "bytes.IndexRune" {
+					linear := map[string]bool{"bytes.IndexByte": true, "bytes.Index": true, "bytes.IndexAny": true, "bytes.IndexFunc": true, "bytes.IndexRune": true,
+						"bytes.Contains": true, "bytes.ContainsAny": true, "bytes.ContainsRune": true, "bytes.LastIndex": true, "bytes.LastIndexByte": true, "bytes.Count": true,
+						"bytes.ToLower": true, "bytes.ToUpper": true}
+					if !linear[nm] {
 						return true
 					}
-					se, ok := ast.Unparen(ce.Args[0]).(*ast.SliceExpr)
+					// the slice that is searched, directly or through a conversion of the whole rest (bytes.ToLower(b[i:]))
+					arg := ast.Unparen(ce.Args[0])
+					for {
+						inner, ok := arg.(*ast.CallExpr)
+						if !ok || !linear[calleeName(info, inner)] || len(inner.Args) < 1 {
+							break
+						}
+						arg = ast.Unparen(inner.Args[0])
+					}
+					se, ok := arg.(*ast.SliceExpr)
 					if !ok || nospace(str(se.X)) != over || se.Low == nil {
 						return true
+					}
+					if c.P.Parent(ce) != nil {
+						if outer, ok := c.P.Parent(ce).(*ast.CallExpr); ok && linear[calleeName(info, outer)] {
+							return true // counted with the outer call
+						}
 					}
 					// the window starts at the cursor
 					starts := false
